@@ -72,6 +72,8 @@ let rec valx = function
 let rec gx (x : sx) : g =
   match x with
   | A "End" -> End | A "Empty" -> Empty | A "Any" -> Any
+  | A "AnyRef" -> Any                                            (* any_ref(): the by-reference form of any() *)
+  | L [A "SelectRef"; p; f] -> Select (predx p, fn1x f)          (* select_ref!: the by-reference form of select! *)
   | L [A "Just"; t] -> Just (toks t)
   | L [A "OneOf"; t] -> OneOf (toks t)
   | L [A "NoneOf"; t] -> NoneOf (toks t)
